@@ -388,6 +388,12 @@ class AsrFormatter(BlockExitFormatter):
             yield from super().block_exit(context)
 
 
+def _is_verb_row(row: str, verb: str) -> bool:
+    """a patch row that IS the verb applied to a statement ('delete foo'), not a statement whose first word merely
+    starts with these letters ('delete-binding-on-renegotiation', 'activate-...')"""
+    return row == verb or row.startswith(verb + " ")
+
+
 class JuniperPatch:
     def __init__(self):
         """In the case of comments, odict is not suitable: there may be several identical edit and exit"""
@@ -527,15 +533,15 @@ class JuniperFormatter(CommonFormatter):
                         " ".join(("annotate", context["row"].split(" ")[0], f'"{value}"')),
                         "exit"
                     )
-                elif key.startswith("delete"):
+                elif _is_verb_row(key, "delete"):
                     cmds = (
                         " ".join(("delete", *_prev, key.replace("delete", "", 1).strip())),
                     )
-                elif key.startswith("activate"):
+                elif _is_verb_row(key, "activate"):
                     cmds = (
                         " ".join(("activate", *_prev, key.replace("activate", "", 1).strip())),
                     )
-                elif key.startswith("deactivate"):
+                elif _is_verb_row(key, "deactivate"):
                     cmds = (
                         " ".join(("deactivate", *_prev, key.replace("deactivate", "", 1).strip())),
                     )
@@ -615,7 +621,7 @@ class NokiaFormatter(JuniperFormatter):
                 for k, v in self.cmd_paths(childs, (*_prev, key.strip())).items():
                     commands[k] = v
             else:
-                if key.startswith("delete"):
+                if _is_verb_row(key, "delete"):
                     cmd = " ".join((self.patch_set_prefix, "delete", *_prev, key.replace("delete", "", 1).strip()))
                 else:
                     cmd = " ".join((self.patch_set_prefix, *_prev, key.strip()))
